@@ -25,6 +25,21 @@ def strip_comments(tree):
             "opts": [{"n": o["n"], "v": [strip_comments(v) if isinstance(v, dict) else v for v in o["v"]]} for o in tree["opts"]]}
 
 
+def lost_annotation(a, b, path=""):
+    """an annotation present in tree a that is missing or different in tree b (same shape) -> description"""
+    if a is None or b is None:
+        return None
+    for oa, ob in zip(a["opts"], b["opts"]):
+        if oa["c"] is not None and oa["c"] != ob["c"]:
+            return "annotation of %s/%s was %r, now %r" % (path, oa["n"], oa["c"], ob["c"])
+        for x, y in zip(oa["v"], ob["v"]):
+            if isinstance(x, dict) and isinstance(y, dict):
+                r = lost_annotation(x, y, "%s/%s" % (path, oa["n"]))
+                if r:
+                    return r
+    return None
+
+
 def find_opt(tree, path, name, nocase):
     sec = tree
     for oname, idx in path:
@@ -82,7 +97,8 @@ class C15:
         if base is None:
             return Outcome(failure=Failure("die/%s" % r.death(), r.stderr.decode("latin-1")[:1500]), classes=["died"])
         base_rc = base["rc"]
-        base_tree = strip_comments(dump_to_plain(res[0]["dump"]["tree"]))
+        base_full = dump_to_plain(res[0]["dump"]["tree"])
+        base_tree = strip_comments(base_full)
         fails, keys, cc = [], [], {}
         crashed_already = [False]
         annot = []
@@ -111,6 +127,9 @@ class C15:
                 tree = dump_to_plain(rs["dump"]["tree"])
                 if strip_comments(tree) != base_tree:
                     sig, msg = "values-changed", "comment %r inserted before %r changed the values\n  text %r" % (form, tk, sub["text"])
+                elif (flags & F_COMMENTS) and not at_item and lost_annotation(base_full, tree):
+                    sig, msg = "annotation-replaced-by-inner-comment", "comment %r inserted inside an item (before %r): %s\n  text %r" % (
+                        form, tk, lost_annotation(base_full, tree), sub["text"])
                 elif (flags & F_COMMENTS) and at_item and body.kind == "COMMENT":
                     mk = item_offs[tk.start]
                     # the item that follows: scalar assignment or non-empty brace list?
@@ -229,6 +248,16 @@ class C15:
             toks = draw(gen_text.text_tokens(opts, flags, max_items=4, bad_p=0.03))
             if draw(st.integers(0, 4)) == 0:
                 toks = draw(gen_text.mutate_tokens(toks, 1))
+            if flags & F_COMMENTS:
+                # annotate some items of the base text
+                out = []
+                start = True
+                for t in toks:
+                    if start and t[0] == "s" and draw(st.integers(0, 2)) == 0:
+                        out.append(["c", draw(st.sampled_from([" base annotation", " note", "x"])), "hash"])
+                    out.append(t)
+                    start = t[0] == "w" and "\n" in t[1]
+                toks = out
             forms = draw(st.lists(st.sampled_from(FORMS), min_size=4, max_size=4, unique=True))
             return {"schema": sc, "flags": flags, "tokens": toks, "forms": forms}
         return case()
